@@ -347,6 +347,7 @@ def run(ctx):
                 'the abstract map; evaluations = individual operations; every history is non-trivial (>=3 mutations)'
                 % (len(KINDS), nmut, UIDS))
     out.rule += "; a fifth of the adds offer the very object handed to the previous add / update of that uid; for the serializing backends a reader changes the object a get handed out; SQL statement faults: the k-th statement of add / update / delete fails for every k (directly, behind the observable wrapper and the enfolding cache) and the storage's own later reads must show the stored set as it was"
+    out.rule += '; 40% of the SQLite storages on plain connections (PRAGMA foreign_keys not set); a stream that re-uses one uid after delete / update on every backend and reads it back element for element'
     return out
 
 
